@@ -352,6 +352,21 @@ func c08Repeat(r *Runner) {
 				problems = append(problems, fmt.Sprintf("output %d differs from the first from-scratch output (1-3: same directory, repeated in place; 4: another directory)", k+1))
 			}
 		}
+		// other spellings of the same package: the full import path, and "." from inside the directory
+		if len(outs) > 0 {
+			rel := "vxfix/c08rep/a/" + f.name
+			dir := filepath.Join(r.S.Repo, rel)
+			for _, sp := range []struct{ what, cwd, arg string }{{"import path", r.S.Repo, modPath + "/" + rel}, {"\".\" inside the directory", dir, "."}} {
+				if o, code, _ := runCmd(sp.cwd, goEnv(), 2*time.Minute, r.S.Goderive, sp.arg); code != 0 {
+					problems = append(problems, fmt.Sprintf("addressed by %s goderive exits %d: %s", sp.what, code, trunc(o, 200)))
+					continue
+				}
+				data, _ := os.ReadFile(filepath.Join(dir, "derived.gen.go"))
+				if !bytes.Equal(outs[0], data) {
+					problems = append(problems, "output differs when the package is addressed by "+sp.what)
+				}
+			}
+		}
 		rows = append(rows, map[string]interface{}{"fixture": f.name, "runs": len(outs), "problems": problems})
 		if len(problems) > 0 {
 			rel := "vxfix/c08rep/a/" + f.name
